@@ -65,3 +65,13 @@ OVERFLOW_INHERITING = re.compile(
     r"|^core::ops::arith::(Neg::neg|Add::add|Sub::sub|Mul::mul|Div::div|Rem::rem|AddAssign::add_assign|SubAssign::sub_assign|MulAssign::mul_assign)$"
     r"|^core::iter::traits::iterator::Iterator::(sum|product)$"
     r"|^core::iter::traits::accum::(Sum|Product)::(sum|product)$")
+
+
+# std operations whose cost is linear in the length of their receiver (C01 R-5: not inside a decode loop on a collection that
+# lives across iterations)
+LINEAR_SCANS = re.compile(
+    r"^core::slice::<impl \[T\]>::(contains|iter\(\)|starts_with|ends_with|binary_search.*|sort.*|reverse|concat|join|to_vec|rotate_.*)$"
+    r"|^alloc::vec::Vec::<T, A>::(remove|insert|retain|retain_mut|dedup.*|drain|splice|extend_from_slice|clone|truncate)$"
+    r"|^alloc::slice::<impl \[T\]>::(to_vec|sort.*|concat|join)$"
+    r"|^core::iter::traits::iterator::Iterator::(any|all|find|find_map|position|rposition|max|min|max_by.*|min_by.*|count|last|nth|sum|product|fold|for_each|collect|eq|cmp)$"
+    r"|^<alloc::vec::Vec<.*> as core::clone::Clone>::clone$")
